@@ -8,6 +8,7 @@ import DsdVerif.Spec.Symbols
 import DsdVerif.Model.Complex
 import DsdVerif.Model.World
 import DsdVerif.Gen.Grammars
+import DsdVerif.Model.Kernel
 
 namespace Dsd.Driver
 open Dsd
@@ -186,6 +187,17 @@ def step (line : String) : String :=
     match PP.parseDoc Gen.ssw_env Gen.ssw_grammar (String.ofList (unhex hex.toList)) with
     | some ts => "ok " ++ showTrees ts
     | none => "err ParseException"
+  | ["kernel.resolve", hex] =>
+    -- parse `X = <pattern>` with the PIL grammar, then translate the pattern like the reader does
+    match PP.parseDoc Gen.pil_env Gen.pil_grammar (String.ofList (unhex hex.toList)) with
+    | some [.grp (.tok "kernel-complex" :: .tok _ :: .grp pat :: _)] =>
+      match resolveKernel (4 * hex.length + 8) pat with
+      | .ok (se, ss) => "ok " ++ showNames se ++ " / " ++ String.ofList ss
+      | .error e => showErr e
+    | some _ => "err not-a-kernel-complex"
+    | none => "err ParseException"
+  | ["kernel.string", seq, sst] =>
+    "ok " ++ kernelString (words seq) sst.toList
   | ["symbols.unresolved"] =>
     "refs " ++ " ".intercalate (Symbols.unresolved.map (fun r => r.1 ++ ":" ++ r.2.1 ++ ":" ++ r.2.2))
   | _ => "bad-op"
